@@ -187,6 +187,16 @@ func oneConn(p *e2e.Pair, seed int64, closer string) *e2e.Failure {
 		app.Close()
 		return e2e.ExpectEOF(tgt, "c2t")
 	}
+	if hc, ok := tgt.(interface{ CloseWrite() error }); ok && seed%3 == 0 {
+		// the target only shuts its sending side down and waits for the tunnel to end the connection: the application
+		// sees the end, finishes, and the server must then release its socket to the target
+		_ = hc.CloseWrite()
+		if f := e2e.ExpectEOF(app, "t2c"); f != nil {
+			return f
+		}
+		app.Close()
+		return e2e.ExpectEOF(tgt, "target-that-shut-its-sending-side-first")
+	}
 	tgt.Close()
 	return e2e.ExpectEOF(app, "t2c")
 }
